@@ -10,7 +10,7 @@ fn ilist(rng: &mut Rng, n: usize) -> String {
 }
 
 /// One block of forms; `u` is a unique suffix for global names.
-pub const TEMPLATES: usize = 26;
+pub const TEMPLATES: usize = 27;
 
 pub fn block(rng: &mut Rng, u: usize, tags: &mut Vec<String>) -> Vec<String> {
     block_of(rng, u, tags, None)
@@ -458,6 +458,22 @@ pub fn block_of(rng: &mut Rng, u: usize, tags: &mut Vec<String>, force: Option<u
                     format!("r{u}", u = u),
                 ]
             }
+        }
+        25 => {
+            // about a hundred re-entries inside one form, each delivering a fresh list that nothing else refers to:
+            // the heap fills up and is collected many times on the way, whatever the collection schedule, and some
+            // invocation happens with the heap nearly full
+            let n = 90 + rng.below(30);
+            vec![
+                format!("(define k{u} #f)", u = u),
+                format!("(define n{u} 0)", u = u),
+                format!("(define sum{u} 0)", u = u),
+                format!(
+                    "(let ((v (call/cc (lambda (c) (set! k{u} c) (list 0))))) (set! sum{u} (+ sum{u} (length v) (car v))) (set! n{u} (+ n{u} 1)) (if (< n{u} {n}) (k{u} (vector->list (make-vector {m} n{u}))) sum{u}))",
+                    u = u, n = n, m = 50 + a
+                ),
+                format!("(list n{u} sum{u})", u = u),
+            ]
         }
         _ => {
             // invoked from inside a for-each callback of a later form: abandons that loop
